@@ -607,7 +607,7 @@ int main(void)
   size_t cap  = 0;
   char*  tok[8];
   setvbuf(stdout, NULL, _IOLBF, 0);
-  snprintf(lock_path, sizeof(lock_path), "/tmp/zix_c19_lock.XXXXXX");
+  snprintf(lock_path, sizeof(lock_path), "%s/zix_c19_lock.XXXXXX", getenv("VERIF_SCRATCH") ? getenv("VERIF_SCRATCH") : "/tmp");
   const int fd = mkstemp(lock_path);
   if (fd < 0) {
     perror("mkstemp");
